@@ -490,8 +490,8 @@ theorem C33_alloc_linear_partial (k : Kind) (hk : bytesFree k = true) (bs : Byte
   case sreq => omega
   case sresp =>
     split
-    · omega
-    · split <;> omega
+    · simp only; omega
+    · split <;> simp only <;> omega
   case bah =>
     have h1 := alloc_le_steps _ hk bs
     have h2 := steps_le_input baHandshakeTy (by decide) (by decide) bs
